@@ -57,6 +57,9 @@ func Tick(site string) {
 		e.ticks = 0
 		panic(BudgetExceeded{Site: site})
 	}
+	if e.opt.FineLoops {
+		e.point("loop " + site)
+	}
 }
 
 // Now replaces time.Now in instrumented code.
